@@ -39,7 +39,7 @@ SPECIALS = [" ", "  ", "%s", "%d", "%(x)s", "{}", "{0}", "\\", "\\n", "\"", "'",
 SCENARIOS = ["client_ok", "client_bad", "raw_PASS_ok", "raw_pass_ok", "raw_PaSs_bad", "raw_out_of_sequence", "raw_relogin",
              "raw_user_limit", "raw_server_limit", "raw_errors_after_login", "raw_cut_in_pass", "client_ok_ops", "raw_slow_manager",
              "raw_failing_manager", "raw_close_while_logged_in", "client_timeout_in_pass", "raw_latin1_pass", "raw_pipelined_pass",
-             "raw_pass_no_newline", "client_failing_manager", "client_hangup_after_pass", "client_acct_first"]
+             "raw_pass_no_newline", "client_failing_manager", "client_hangup_after_pass", "client_acct_first", "raw_long_pass_two_pieces"]
 
 
 def gen_password(rng):
@@ -223,6 +223,23 @@ async def scenario(net, hyg, name, password):
             p.writer.write(f"USER alice\r\nPASS {password}\r\nPWD\r\nMKD /x\r\nPASS {password}\r\nSYST\r\n".encode())
             for _ in range(6):
                 r = await p.read_reply(wait=3)
+                outcome.append(r.code if r not in (None, "EOF") else str(r))
+                if r in (None, "EOF"):
+                    break
+            p.cut("fin")
+        elif name == "raw_long_pass_two_pieces":
+            # a PASS line longer than the stream limit whose end (here: the password proper) arrives in a later piece
+            p = RawPeer(net, 2121)
+            await p.connect()
+            outcome.append((await p.cmd("USER alice")).code)
+            p.writer.write(b"PASS " + b"A" * 70000)
+            await asyncio.sleep(0.05)
+            try:
+                p.writer.write(password.encode() + b"\r\nPWD\r\n")
+            except Exception:
+                pass
+            for _ in range(3):
+                r = await p.read_reply(wait=2)
                 outcome.append(r.code if r not in (None, "EOF") else str(r))
                 if r in (None, "EOF"):
                     break
